@@ -484,6 +484,12 @@ class StmtMixin(object):
             else:
                 raise Unsupported('loop target')
             self.assign_target(s.target, lo, s.line)
+        # snapshot of the state at loop entry: entry(e, k) in clauses
+        import copy as _copy
+        if not hasattr(fr, 'loop_entry'):
+            fr.loop_entry = {}
+            fr.loop_head = {}
+        fr.loop_entry[ordn] = (_copy.deepcopy(dict(fr.env)), self.kappa, dict(self.ghost.get('g', {})))
         # 1. invariant holds on entry
         for (label, ir, txt) in spec.invariants:
             self.oblige('inv-init', self.spec_truth(ir), label='%s:%s' % (lname, label), line=s.line, note=txt)
@@ -521,6 +527,9 @@ class StmtMixin(object):
             havoc_list.append(ivar_attr)
         for p in spec.modifies_extra:
             if p == 'kappa':
+                continue
+            if p.startswith('ghost:'):
+                wset.add(('G', p[6:]))
                 continue
             from .contracts import parse_expr
             node = parse_expr(p)
@@ -581,6 +590,11 @@ class StmtMixin(object):
                 if ctf is not None and ctf[0] == 'int' and not ctf[1]:
                     self.assume_fact(tm.ge(nv, tm.mk_int(0)))
                 o.fields[attr] = nv
+        for p in spec.modifies_extra:
+            if p.startswith('ghost:'):
+                g = self.ghost.setdefault('g', {})
+                cur = g.get(p[6:])
+                g[p[6:]] = self.fresh('ghost_%s@%s' % (p[6:], ordn), cur.sort if cur is not None else tm.ArraySort(INT, REAL))
         if 'kappa' in spec.modifies_extra:
             wset.add(('K',))
             self.kappa = self.fresh('kappa@%s' % ordn, INT)
@@ -591,6 +605,7 @@ class StmtMixin(object):
             self.assume(tm.ite(tm.le(lo, hi), tm.le(i, hi), tm.eq(i, lo)))
         for (label, ir, txt) in spec.invariants:
             self.assume(self.spec_truth(ir))
+        fr.loop_head[ordn] = (_copy.deepcopy(dict(fr.env)), self.kappa, dict(self.ghost.get('g', {})))
         if iterate:
             if is_for:
                 self.assume(tm.lt(self.eval_quiet(s.target), hi))
@@ -618,6 +633,8 @@ class StmtMixin(object):
                 self.assign_target(s.target, tm.add(self.eval_quiet(s.target), tm.mk_int(1)), s.line)
             for (label, ir, txt) in spec.invariants:
                 self.oblige('inv-keep', self.spec_truth(ir), label='%s:%s' % (lname, label), line=s.line, note=txt)
+            for (label, ir, txt) in spec.steps:
+                self.oblige('step', self.spec_truth(ir), label='%s:%s' % (lname, label), line=s.line, note=txt)
             raise PathEnd()
         else:
             if is_for:
